@@ -297,6 +297,7 @@ fn gen_cfg_params(rng: &mut Rng) -> GenCfg {
         entry_in_loop: true,
         allow_div: false,
         index_gaps: true,
+        rejected_edges: true,
     }
 }
 
